@@ -181,6 +181,10 @@ def run_case(case: dict):
     """-> ('raised', None) | ('ok', None) | ('violation', (kind, msg))."""
     if case.get("sink_reuse"):
         return run_sink_reuse(case)
+    if case.get("device"):
+        return run_device(case)
+    if case.get("prefix_leading"):
+        return run_prefix_leading(case)
     arity = 3 if case["cls"] == "triple" else 4
     flat = [s for g in input_for(case["input"], arity) for s in g]
     expect = T.norm_seq(flat)
@@ -288,6 +292,153 @@ def run_sink_reuse(case: dict):
     return "ok", None
 
 
+def run_prefix_leading(case: dict):
+    """What the flat parsers yield for a stream with namespace declarations (Prefix items among
+    the statements) handed straight to the flat serializers: refused, or nothing is lost."""
+    api, arity, where = case["api"], case["arity"], case["where"]
+    seq = list(T3 if arity == 3 else T4)
+    if api == "generic":
+        from pyjelly.integrations.generic import generic_sink as gs  # noqa: PLC0415
+        from pyjelly.integrations.generic import serialize as ser  # noqa: PLC0415
+
+        pfx = gs.Prefix("ex", gs.IRI("http://a/"))
+        items = [T.st_to_generic(s) for s in seq]
+    else:
+        import rdflib  # noqa: PLC0415
+
+        from pyjelly.integrations.rdflib import serialize as ser  # noqa: PLC0415
+        from pyjelly.integrations.rdflib.parse import Prefix  # noqa: PLC0415
+
+        pfx = Prefix("ex", rdflib.URIRef("http://a/"))
+        items = [T.st_to_rdflib(s) for s in seq]
+    items.insert({"first": 0, "second": 1, "last": len(items)}[where], pfx)
+    opts = None
+    if case["options"]:
+        opts = DR.make_options("triple" if arity == 3 else "quad", (8, 4, 2), 2, True,
+                               1 if arity == 3 else 2, generalized=(api == "generic"),
+                               rdf_star=(api == "generic"), ns=case["options"] == "ns")
+    out = io.BytesIO()
+    try:
+        if case["entry"] == "flat_to_file":
+            ser.flat_stream_to_file((i for i in items), out, opts)
+        else:
+            for f in ser.flat_stream_to_frames((i for i in items), opts):
+                out.write(jwire.write_delimited([f.SerializeToString()]))
+    except (NameError, UnboundLocalError) as e:
+        from mc.env import HarnessError  # noqa: PLC0415
+
+        raise HarnessError(f"harness bug, not a refusal: {e!r}") from e
+    except Exception as e:  # noqa: BLE001
+        return "raised", type(e).__name__
+    try:
+        _, per = jspec.decode_frames(jwire.read_delimited(out.getvalue()))
+        got = [T.norm_st(s) for s in jspec.statements(per)]
+    except (jwire.WireError, jspec.SpecViolation) as e:
+        return "violation", ("invalid-output", f"accepted but output is not a valid stream: {e}")
+    if got != T.norm_seq(seq):
+        return "violation", ("statements-missing",
+                             f"a flat input with a Prefix item ({where}) was accepted, but the "
+                             f"output holds {got[:2]}… where {T.norm_seq(seq)[:2]}… went in")
+    return "ok", None
+
+
+class ShortRaw(io.RawIOBase):
+    """A raw output (pipe, socket, unbuffered file) that takes at most k bytes per call and says
+    how many it took."""
+
+    def __init__(self, k: int) -> None:
+        super().__init__()
+        self.buf = bytearray()
+        self.k = k
+
+    def writable(self) -> bool:
+        return True
+
+    def write(self, b) -> int:
+        n = min(len(b), self.k)
+        self.buf += bytes(b[:n])
+        return n
+
+
+class FillingRaw(ShortRaw):
+    """A non-blocking raw output whose buffer fills up: counts while there is room, then None
+    (nothing taken)."""
+
+    def write(self, b):
+        room = self.k - len(self.buf)
+        if room <= 0:
+            return None
+        n = min(len(b), room)
+        self.buf += bytes(b[:n])
+        return n
+
+
+DEVICES = {"short-7": lambda: ShortRaw(7), "short-1000": lambda: ShortRaw(1000),
+           "filling-0": lambda: FillingRaw(0), "filling-5": lambda: FillingRaw(5),
+           "filling-4096": lambda: FillingRaw(4096)}
+DEVICE_ENTRIES = (("generic", "flat_to_file"), ("generic", "grouped_to_file"),
+                  ("generic", "sink_serialize"), ("rdflib", "flat_to_file"),
+                  ("rdflib", "grouped_to_file"), ("rdflib", "graph_serialize_options"))
+
+
+def run_device(case: dict):
+    """The output is a raw device that does not take everything it is offered. Returning
+    normally means everything is on the device; otherwise the call must raise."""
+    api, entry, dl, cls = case["api"], case["entry"], case["delimited"], case["cls"]
+    seq = [(I(f"http://a/s{i % 7}"), I("http://a/p"), L("v" * 40 + str(i))) for i in range(300)]
+    if cls == "quad":
+        seq = [(*st, I(f"http://a/g{i % 3}")) for i, st in enumerate(seq)]
+    dev = DEVICES[case["device"]]()
+    if case["device"] == "filling-0" and not dl and entry == "graph_serialize_options":
+        return "raised", "skipped"  # a writer that never reports a count cannot be told apart
+    opts = DR.make_options(cls, (128, 32, 32), case["frame_size"], dl, 0)
+    try:
+        if api == "generic":
+            from pyjelly.integrations.generic import serialize as ser  # noqa: PLC0415
+
+            if entry == "flat_to_file":
+                ser.flat_stream_to_file((T.st_to_generic(s) for s in seq), dev, opts)
+            elif entry == "grouped_to_file":
+                ser.grouped_stream_to_file((DR.g_sink(g) for g in (seq[:150], seq[150:])), dev,
+                                           options=opts)
+            else:
+                DR.g_sink(seq).serialize(dev)
+            written_delimited = True
+        else:
+            from pyjelly.integrations.rdflib import serialize as ser  # noqa: PLC0415
+
+            written_delimited = True
+            if entry == "flat_to_file":
+                ser.flat_stream_to_file((T.st_to_rdflib(s) for s in seq), dev, opts)
+            elif entry == "grouped_to_file":
+                ser.grouped_stream_to_file((DR.r_graph(g) for g in (seq[:150], seq[150:])), dev,
+                                           options=opts)
+            else:
+                DR.r_graph(seq).serialize(destination=dev, format="jelly", options=opts)
+                written_delimited = dl
+    except (NameError, UnboundLocalError, AttributeError) as e:
+        from mc.env import HarnessError  # noqa: PLC0415
+
+        raise HarnessError(f"harness bug, not a refusal: {e!r}") from e
+    except Exception as e:  # noqa: BLE001
+        return "raised", type(e).__name__
+    data = bytes(dev.buf)
+    try:
+        frames = jwire.read_delimited(data) if written_delimited else jwire.read_single(data)
+        _, per = jspec.decode_frames(frames)
+        got = {T.norm_st(s) for s in jspec.statements(per)}
+    except (jwire.WireError, jspec.SpecViolation) as e:
+        return "violation", ("partial-output", f"the call returned normally but the {len(data)} "
+                                               f"bytes the device took are not a complete stream "
+                                               f"({e})")
+    missing = set(T.norm_seq(seq)) - got
+    if missing:
+        return "violation", ("statements-missing", f"the call returned normally, the device took "
+                                                   f"{len(data)} bytes, {len(missing)} of "
+                                                   f"{len(seq)} statements are not in them")
+    return "ok", None
+
+
 def all_points(frame_sizes) -> list:
     pts = []
     for api, entries in (("generic", G_ENTRIES), ("rdflib", R_ENTRIES)):
@@ -354,6 +505,32 @@ def shard(job) -> dict:
             outcome, info = run_case(case)
             if outcome == "violation":
                 acc.violation({"fail": info[0], "sink_reuse": True}, f"{info[1]}: {case}", case)
+        for api in ("generic", "rdflib"):
+            for entry in ("flat_to_file", "flat_to_frames"):
+                for arity in (3, 4):
+                    for where in ("first", "second", "last"):
+                        for o in (None, "plain", "ns"):
+                            case = {"prefix_leading": True, "api": api, "entry": entry,
+                                    "arity": arity, "where": where, "options": o}
+                            outcome, info = run_case(case)
+                            acc.counters[f"prefix_item:{outcome}"] += 1
+                            if outcome == "violation":
+                                acc.violation({"fail": info[0], "prefix_item": where},
+                                              f"{info[1]}: {case}", case)
+        for api, entry in DEVICE_ENTRIES:
+            for device in DEVICES:
+                for cls in ("triple", "quad"):
+                    for dl in (True, False):
+                        for fs in (50, 100_000):
+                            case = {"device": device, "api": api, "entry": entry, "cls": cls,
+                                    "delimited": dl, "frame_size": fs}
+                            acc.evals += 1
+                            outcome, info = run_case(case)
+                            acc.counters[f"device:{outcome}"] += 1
+                            if outcome == "violation":
+                                acc.violation({"fail": info[0], "device": device.split("-")[0],
+                                               "delimited": dl},
+                                              f"{info[1]}: {case}", case)
     for api, entry, cls, lt, dl, fs, flow, inp, reuse in all_points(frame_sizes)[lo::hi]:
         case = {"api": api, "entry": entry, "cls": cls, "logical": lt, "delimited": dl,
                 "frame_size": fs, "flow": flow, "input": inp, "reuse": reuse is True,
@@ -382,7 +559,7 @@ def shard(job) -> dict:
 
 def run(ctx) -> None:
     frame_sizes = (1, 2, 250) if ctx.quick else (1, 2, 3, 250)
-    n = len(all_points(frame_sizes))
+    n = len(all_points(frame_sizes)) + len(DEVICE_ENTRIES) * len(DEVICES) * 8
     merged = pool.merge(pool.pmap(shard, [(frame_sizes, i, 64) for i in range(64)]))  # strided
     ctx.add(merged)
     if merged["evals"] != n:
